@@ -1364,6 +1364,6 @@ package analysis
 //@   loop 1: invariant forall i in 0..idx :: forall n string :: n != "" && hasReq(requirements[i], n) && n in dom(s.spec.SecurityDefinitions) && s.spec.SecurityDefinitions[n] != nil ==> n in dom(result)
 //@   loop 2: modifies map result
 //@   loop 2: invariant result != nil && fresh(result) && (forall n in dom(result) :: n != "" && n in dom(s.spec.SecurityDefinitions) && s.spec.SecurityDefinitions[n] != nil && result[n] == *s.spec.SecurityDefinitions[n])
-//@   loop 2: invariant forall n in dom(result) :: (exists i in 0..idx1 :: hasReq(requirements[i], n)) || (exists j in 0..idx :: reqs[j].Name == n)
-//@   loop 2: invariant forall i in 0..idx1 :: forall n string :: n != "" && hasReq(requirements[i], n) && n in dom(s.spec.SecurityDefinitions) && s.spec.SecurityDefinitions[n] != nil ==> n in dom(result)
+//@   loop 2: invariant forall n in dom(result) :: (exists i in 0..idx1 - 1 :: hasReq(requirements[i], n)) || (exists j in 0..idx :: reqs[j].Name == n)
+//@   loop 2: invariant forall i in 0..idx1 - 1 :: forall n string :: n != "" && hasReq(requirements[i], n) && n in dom(s.spec.SecurityDefinitions) && s.spec.SecurityDefinitions[n] != nil ==> n in dom(result)
 //@   loop 2: invariant forall j in 0..idx :: reqs[j].Name != "" && reqs[j].Name in dom(s.spec.SecurityDefinitions) && s.spec.SecurityDefinitions[reqs[j].Name] != nil ==> reqs[j].Name in dom(result)
